@@ -138,22 +138,6 @@ def c15_f3_dataset_broadcast(case, detail):
         ("values differ" in detail or detail.startswith("passthrough[") or "dtype" in detail)
 
 
-def c15_f4_ellipsis_dimension_coordinate(case, detail):
-    # dim=... while grouping by a dimension coordinate: that dimension is taken out of the reduced dims and the call becomes a
-    # plain reduction over the other dims: repeated labels are not grouped, expected_groups are ignored, and for a 1-D object
-    # (nothing left to reduce) xarray raises
-    b = case["by"][0]
-    if not (case["dim"] == "..." and b["src"] in ("dimcoord", "nodimcoord") and b["bins"] is None):
-        return False
-    dup = len(set(b["vals"])) < len(b["vals"])
-    if len(case["dimorder"]) == 1 and (detail.startswith("flox-raised ValueError: dimensions") or detail.startswith("data[")):
-        return True    # nothing is left to reduce: xarray raises, or returns the data unreduced (e.g. integer median stays integer)
-    if b["src"] != "dimcoord":
-        return False
-    return (dup or b["expected"] is not None) and \
-        (detail.startswith("data[") or detail.startswith("coords") or detail.startswith("indexes"))
-
-
 def c15_f5_shortcut_keeps_unlabelled(case, detail):
     # the shortcut never looks at the labels: positions whose label is NaN are kept (native drops them), and the
     # expected_groups of a dimension-coordinate grouper are not applied (no reindexing of that dimension)
@@ -181,7 +165,6 @@ PREDICATES.update({
     "C15-F7": c15_f7_order_several_groupers,
     "C15-F1": c15_f1_group_dim_position,
     "C15-F3": c15_f3_dataset_broadcast,
-    "C15-F4": c15_f4_ellipsis_dimension_coordinate,
     "C15-F5": c15_f5_shortcut_keeps_unlabelled,
     "C15-F6": c15_f6_missing_core_dims,
 })
